@@ -579,6 +579,9 @@ type c19Sack struct {
 	IL  bool     `json:"il"`
 	TSN uint32   `json:"tsn"`
 	Arr []c19Arr `json:"arr"`
+	// Pending: the receiver has called Shutdown() with data of its own still unacknowledged
+	// (SHUTDOWN-PENDING): inbound data is acknowledged by the same rules as before
+	Pending bool `json:"pending,omitempty"`
 }
 
 func genC19Sack(rt *rapid.T) c19Sack {
@@ -594,6 +597,7 @@ func genC19Sack(rt *rapid.T) c19Sack {
 		}
 		sc.Arr = append(sc.Arr, a)
 	}
+	sc.Pending = rapid.IntRange(0, 3).Draw(rt, "pending") == 0
 	return sc
 }
 
@@ -614,6 +618,18 @@ func runC19Sack(t *testing.T, sc c19Sack, verbose bool) (c vfCase) {
 			return
 		}
 		s.afterEstablished()
+		if sc.Pending {
+			s.doWrite(0, 1, 10, 53) // never acknowledged by the puppet
+			s.o.settle(30 * time.Millisecond)
+			a := s.as[0]
+			s.spawn("shutdown", 0, func() error { return a.Shutdown(contextBackground()) })
+			s.o.settle(time.Millisecond)
+			if st := a.getState(); st != shutdownPending {
+				c.fail("not-shutdown-pending", "Shutdown() with unacknowledged data: state %s", getAssociationStateString(st))
+				return
+			}
+			c.class("shutdown-pending")
+		}
 		type arrival struct {
 			at        time.Duration // arrival instant at the receiver
 			immediate bool          // gap or duplicate revealed
